@@ -14,6 +14,7 @@ import (
 	"pgregory.net/rapid"
 	"verif/harness/core"
 	"verif/harness/gen"
+	"verif/harness/pyref"
 	"verif/harness/ref"
 )
 
@@ -366,5 +367,49 @@ func enumerated() []Case {
 	return out
 }
 
-func TestC15(t *testing.T)       { core.RunPre(t, "C15", enumerated(), genCase, check) }
-func TestC15Replay(t *testing.T) { core.Replay(t, "C15", check) }
+func TestC15(t *testing.T)       { core.RunPre(t, "C15", enumerated(), genCase, checkDiff) }
+func TestC15Replay(t *testing.T) { core.Replay(t, "C15", checkDiff) }
+
+// checkDiff: after the model, CmpTotal(x, y) and Cmp(x, y) are compared with compare_total and
+// compare of Python's decimal module (libmpdec), an independent implementation of the
+// specification's total order (payloads are not modelled on either side).
+func checkDiff(c Case, st *core.Stats) error {
+	if err := check(c, st); err != nil {
+		return err
+	}
+	ctx := core.Ctx{P: 9, Emax: 99, Emin: -99, Rounding: "half_even"}
+	a, err := pyref.Ask("cmptotal", ctx, c.X, c.Y, 0)
+	if err != nil {
+		core.InfraExit(err.Error())
+	}
+	v, err := pyref.Parse(a.S)
+	if err != nil || v.Form != 0 {
+		core.InfraExit(fmt.Sprintf("pyref: unexpected compare_total answer %q", a.S))
+	}
+	want := v.Coeff.Sign()
+	if v.Neg {
+		want = -want
+	}
+	st.Class("python-differential")
+	if got := sgn(c.X.Apd().CmpTotal(c.Y.Apd())); got != want {
+		return fmt.Errorf("CmpTotal(%v, %v) = %d, Python's compare_total gives %d", c.X, c.Y, got, want)
+	}
+	if !isNaN(c.X) && !isNaN(c.Y) {
+		a, err := pyref.Ask("cmp", ctx, c.X, c.Y, 0)
+		if err != nil {
+			core.InfraExit(err.Error())
+		}
+		v, err := pyref.Parse(a.S)
+		if err != nil || v.Form != 0 {
+			core.InfraExit(fmt.Sprintf("pyref: unexpected compare answer %q", a.S))
+		}
+		want := v.Coeff.Sign()
+		if v.Neg {
+			want = -want
+		}
+		if got := c.X.Apd().Cmp(c.Y.Apd()); got != want {
+			return fmt.Errorf("Cmp(%v, %v) = %d, Python's compare gives %d", c.X, c.Y, got, want)
+		}
+	}
+	return nil
+}
